@@ -13,3 +13,81 @@ LEVEL_NOTE = 'Trusted: Coq kernel; hand-written model Model/Core.v + Model/Prog.
 FAMILIES = [
     progs.program_family("programs", oracles.oracle_c03, 120, 2500, deep=dict(depth=6), **dict(p_reserved=0.2, p_finish_inside=0.08, fault=0.4, registry_rate=0.9, p_fault_ser=0.0, p_raise=0.3, p_finish_again=0.15, sr=0.3)),
 ]
+
+
+# ---- operation-level scripts: extractors registered in the middle of the run, explicit finish(exc) -----------
+import json
+from lib import oplists
+from lib.framework import Family
+
+
+def gen_scripts(rng, tier):
+    n = 80 if tier == "quick" else 1500
+    return [oplists.gen_script(rng, late_add=(i % 5 == 0), n_ops=rng.randrange(8, 28), fault=0.0 if i % 2 else 0.3,
+                               p_register=0.35, p_exn=0.6) for i in range(n)]
+
+
+def oracle_scripts(case, obs):
+    bad = oracles.note_failures(obs, ("logging_raised", "foreign_exception"))
+    if bad:
+        return bad
+    if "1" not in obs["raw"]:
+        return None
+    msgs = obs["raw"]["1"]
+    reg = []
+    ended = {}
+    for c, o in oplists.ctx_ops(case):
+        if o[0] == "register":
+            reg = reg + [[o[1], o[2]]]
+        elif o[0] in ("exit", "finish") and o[1] not in ended:
+            ended[o[1]] = (o[2], list(reg))
+    started = [o[1] for c, o in oplists.ctx_ops(case) if o[0] == "start"]
+    for h in started:
+        starts = [m for m in msgs if m.get("f19") == h and m.get("action_status") == "started"]
+        if len(starts) != 1:
+            return "action %d logged %d start messages" % (h, len(starts))
+        s = starts[0]
+        ends = [m for m in msgs if m.get("task_uuid") == s["task_uuid"] and m.get("task_level", [])[:-1] == s["task_level"][:-1]
+                and m.get("action_status") in oracles.ENDED]
+        if h not in ended:
+            if ends:
+                return "action %d was never ended but has an end message" % h
+            continue
+        if len(ends) != 1:
+            return "action %d logged %d end messages" % (h, len(ends))
+        e = ends[0]
+        x, reg_then = ended[h]
+        if e.get("action_type") != s.get("action_type"):
+            return "action %d end message has another action_type" % h
+        if (e["action_status"] == "failed") != (x is not None):
+            return "action %d: ended %s but end status is %r" % (h, "with an exception" if x else "normally", e["action_status"])
+        extra = {k for k in e if k.startswith("f") and k[1:].isdigit() and 40 <= int(k[1:]) < 46}
+        if x is None:
+            if "exception" in e or "reason" in e or extra:
+                return "action %d succeeded but its end message has exception/reason/extractor fields" % h
+            continue
+        fake = {"classes": case["classes"], "registry": reg_then}
+        if e.get("exception") != oracles.class_name(fake, x["cls"]):
+            return "action %d: exception field %r, expected %r" % (h, e.get("exception"), oracles.class_name(fake, x["cls"]))
+        want = progs.SAFEFAIL if x["sr"] else "text%d" % x["text"]
+        if e.get("reason") != want:
+            return "action %d: reason %r, expected %r" % (h, e.get("reason"), want)
+        ext = oracles.expected_extractor(fake, x["cls"])
+        if ext is not None and ext[0] == "fields":
+            wantf = {progs.key_name(k): progs.canon_value(progs.py_value(v)) for k, v in ext[1]}
+            gotf = {k: progs.canon_value(e[k]) for k in extra}
+            if wantf != gotf:
+                return ("action %d: extractor fields %r on the failed end, expected %r (those of the nearest class registered "
+                        "when the action ended)" % (h, sorted(gotf), sorted(wantf)))
+        elif extra:
+            return "action %d: unexpected extractor fields %r" % (h, sorted(extra))
+    return None
+
+
+def nontrivial_scripts(case, obs):
+    kinds = [o[0] for o in case["ops"]]
+    return json.dumps(case["ops"]) if "register" in kinds and isinstance(obs, dict) and sum(len(m) for _, m in obs.get("dests", [])) >= 3 else None
+
+
+FAMILIES.append(Family("scripts", gen_scripts, oplists.run_case, oplists.model_expr, oplists.model_obs, oracle_scripts, nontrivial_scripts,
+                       imports=["Model.Core", "Model.Prog"], project=oplists.project, describe=oplists.describe, shard=30, coq_shard=60))
